@@ -201,6 +201,9 @@ class FD:
                 out.append(self.eval(e.elt, inner))
         return out
 
+    def e_GeneratorExp(self, e, env):
+        return self.e_ListComp(e, env)
+
     def e_Tuple(self, e, env):
         return tuple(self.eval(x, env) for x in e.elts)
 
@@ -456,6 +459,31 @@ class FD:
         r = self.run(fn.body, env)
         return None if r is NO_RETURN else r
 
+    def bind_methods(self, obj, methods, skip=()):
+        """Attach the given {name: FunctionDef} as abstractly-executed bound methods of obj."""
+        from .astutil import dotted
+        for name, fn in methods.items():
+            if name in skip or ('method:' + name) in obj.attrs:
+                continue
+            decos = [dotted(d) for d in fn.decorator_list]
+            if 'property' in decos:
+                continue
+            if 'staticmethod' in decos:
+                obj.attrs['method:' + name] = (lambda f: (lambda *a, **k: self.call_function(f, list(a), k)))(fn)
+            else:
+                obj.attrs['method:' + name] = (lambda f: (lambda *a, **k: self.call_function(
+                    f, list(a), k, bound_self=obj)))(fn)
+        return obj
+
+    def instantiate(self, name, methods, args=(), kwargs=None, closed=True):
+        obj = Obj(name)
+        if closed:
+            obj.attrs['__closed__'] = True
+        self.bind_methods(obj, methods)
+        if '__init__' in methods:
+            self.call_function(methods['__init__'], list(args), kwargs or {}, bound_self=obj)
+        return obj
+
     def call_method(self, recv, attr, args, kwargs=None):
         kwargs = kwargs or {}
         if attr in self.methods:
@@ -603,6 +631,29 @@ class FD:
             raise _Continue()
         if isinstance(st, ast.Try):
             self.try_stmt(st, env)
+            return
+        if isinstance(st, ast.With):
+            managers = []
+            for item in st.items:
+                cm = self.eval(item.context_expr, env)
+                if not (isinstance(cm, Obj) and 'method:__enter__' in cm.attrs and 'method:__exit__' in cm.attrs):
+                    raise Inconclusive('fdeval: with over a non-modelled context manager')
+                v = cm.attrs['method:__enter__']()
+                if item.optional_vars is not None:
+                    self.assign(item.optional_vars, v, env)
+                managers.append(cm)
+            try:
+                self.block(st.body, env)
+            except Raised as r:
+                for cm in reversed(managers):
+                    cm.attrs['method:__exit__'](r.kind, r, None)
+                raise
+            except (_Return, _Break, _Continue):
+                for cm in reversed(managers):
+                    cm.attrs['method:__exit__'](None, None, None)
+                raise
+            for cm in reversed(managers):
+                cm.attrs['method:__exit__'](None, None, None)
             return
         if isinstance(st, ast.Raise):
             from .astutil import dotted
@@ -807,6 +858,9 @@ _BUILTINS = {
     'range': _concrete_seq(lambda *x: list(range(*x))),
     'zip': _concrete_seq(lambda *x: list(zip(*x))),
     'min': _concrete_seq(min), 'max': _concrete_seq(max), 'sum': _concrete_seq(sum),
+    'map': lambda f, x: [f(i) for i in x],
+    'any': lambda x: any(truth(i) for i in x),
+    'all': lambda x: all(truth(i) for i in x),
     'len': _b_len,
     'bool': _b_bool,
     'round': _b_round,
